@@ -132,7 +132,7 @@ func ls2Shapes() []ls2Shape {
 		{7, 4, 0, -1, 0, []int{32}, 1, 2},
 		{7, 4, 0, -1, 0, []int{32, 256}, 2, 0},
 		{7, 0, 0, -1, 0, []int{0, 32}, 0, 3},
-		{7, 4, 0, 7, 0, []int{32}, 1, 0},
+		{7, 4, 0, 7, 0, []int{32}, 1, 2},
 		{7, 4, 2, -1, 0, []int{32}, 1, 1},
 		{11, 4, 0, -1, 0, []int{32}, 1, 0},
 		{1, 0, 0, -1, 0, []int{32}, 1, 0},
@@ -232,7 +232,7 @@ func metaShapes() []metaShape {
 	sh := []metaShape{
 		{7, 4, 0, -1, 0, []int{0}, 2},
 		{7, 4, 0, -1, 0, []int{0, 0}, 0},
-		{7, 0, 0, 7, 0, []int{0}, 0},
+		{7, 0, 0, 7, 0, []int{0}, 3}, // offline block AND trailing bytes: the remainder after the transient-key signature
 		{7, 4, 0, -1, 6, []int{0}, 0},
 		{7, 4, 0, -1, 0, []int{5}, 1},
 		{-1, 0, 0, -1, 0, []int{0, 0}, 0},
@@ -295,7 +295,7 @@ func encShapes() []encShape {
 	sh := []encShape{
 		{7, -1, 61, 2},
 		{11, -1, 61, 0},
-		{11, 7, 62, 0},
+		{11, 7, 62, 2},
 		{7, -1, 200, 0},
 		{1, -1, 61, 0},
 		{0, -1, 61, 1},
@@ -409,6 +409,7 @@ func riShapes() []riShape {
 		{1, 0, 0, []raShape{{0, 0}}, 0, 0},
 		{7, 4, 2, nil, 0, 0},
 		{7, 4, 0, nil, 10, 0},
+		{7, 4, 0, nil, 0, 40}, // enough trailing bytes for a parser that (wrongly) skips peer_size hashes to still find a signature
 	}
 	if nd.Thorough() {
 		sh = append(sh,
